@@ -267,9 +267,11 @@ func sortInts(a []int) {
 }
 
 func runSched(c *rig.Ctx, s SchedCase, record bool) bool {
+	lastClass = ""
 	fail := func(kind, class, what string, impl, model interface{}) bool {
+		lastClass = class
 		if record {
-			c.Fail(rig.Failure{Kind: kind, Class: class, What: what, Case: s, Impl: impl, Model: model})
+			report(c, rig.Failure{Kind: kind, Class: class, What: what, Case: s, Impl: impl, Model: model})
 		}
 		return false
 	}
@@ -319,10 +321,12 @@ func runSched(c *rig.Ctx, s SchedCase, record bool) bool {
 }
 
 func shrinkSched(c *rig.Ctx, s SchedCase) SchedCase {
+	runSched(c, s, false)
+	want := lastClass
 	s.Events = rig.ShrinkList(s.Events, func(evs []Ev) bool {
 		x := s
 		x.Events = evs
-		return !runSched(c, x, false)
+		return !runSched(c, x, false) && lastClass == want
 	})
 	return s
 }
@@ -371,8 +375,8 @@ func schedBucket(s SchedCase) (bool, string) {
 }
 
 func genSched(c *rig.Ctx) {
-	n := c.Budget(1200, 40000)
-	for i := 0; i < n && c.NFailures() < 5; i++ {
+	n := c.Budget(4000, 80000)
+	for i := 0; i < n && judgeFailures < 5; i++ {
 		s := genSchedCase(c)
 		nt, b := schedBucket(s)
 		c.Case(rig.Canon(s), nt, b, func() interface{} { return s })
@@ -390,7 +394,7 @@ func genSched(c *rig.Ctx) {
 				total *= threads
 			}
 			for max := 0; max <= 2; max++ {
-				for code := 0; code < total && c.NFailures() < 5; code++ {
+				for code := 0; code < total && judgeFailures < 5; code++ {
 					s := SchedCase{Kind: "sched", Max: max}
 					x := code
 					for i := 0; i < length; i++ {
@@ -424,7 +428,7 @@ type StressCase struct {
 func runStress(c *rig.Ctx, s StressCase, record bool) bool {
 	fail := func(class, what string) bool {
 		if record {
-			c.Fail(rig.Failure{Kind: "judge", Class: class, What: what, Case: s})
+			report(c, rig.Failure{Kind: "judge", Class: class, What: what, Case: s})
 		}
 		return false
 	}
@@ -512,8 +516,8 @@ func runStress(c *rig.Ctx, s StressCase, record bool) bool {
 }
 
 func genStress(c *rig.Ctx) {
-	n := c.Budget(24, 400)
-	for i := 0; i < n && c.NFailures() < 5; i++ {
+	n := c.Budget(40, 600)
+	for i := 0; i < n && judgeFailures < 5; i++ {
 		s := StressCase{Kind: "stress", Goroutines: 2 + c.Rng.Intn(31), Iterations: 2000 + c.Rng.Intn(6000), Yield: c.Rng.Intn(2) == 0}
 		k := 1 + c.Rng.Intn(3)
 		for j := 0; j < k; j++ {
